@@ -392,7 +392,7 @@ impl<'ast, 'psess, 'c> ModResolver<'ast, 'psess> {
         }
 
         // Look for nested path, like `#[cfg_attr(feature = "foo", path = "bar.rs")]`.
-        let mut mods_outside_ast = self.find_mods_outside_of_ast(attrs, sub_mod);
+        let mut mods_outside_ast = self.find_mods_outside_of_ast(mod_name, attrs, sub_mod)?;
 
         match self
             .psess
@@ -527,9 +527,10 @@ impl<'ast, 'psess, 'c> ModResolver<'ast, 'psess> {
 
     fn find_mods_outside_of_ast(
         &self,
+        mod_name: symbol::Ident,
         attrs: &[ast::Attribute],
         sub_mod: &Module<'ast>,
-    ) -> Vec<(PathBuf, DirectoryOwnership, Module<'ast>)> {
+    ) -> Result<Vec<(PathBuf, DirectoryOwnership, Module<'ast>)>, ModuleResolutionError> {
         // Filter nested path, like `#[cfg_attr(feature = "foo", path = "bar.rs")]`.
         let mut path_visitor = visitor::PathVisitor::default();
         for attr in attrs.iter() {
@@ -557,7 +558,18 @@ impl<'ast, 'psess, 'c> ModResolver<'ast, 'psess> {
                 match Parser::parse_file_as_module(self.psess, &actual_path, sub_mod.span) {
                     Ok((ref attrs, _, _)) if contains_skip(attrs) => continue,
                     Ok(m) => m,
-                    Err(..) => continue,
+                    Err(ParserError::ParseError) => {
+                        return Err(ModuleResolutionError {
+                            module: mod_name.to_string(),
+                            kind: ModuleResolutionErrorKind::ParseError { file: actual_path },
+                        });
+                    }
+                    Err(..) => {
+                        return Err(ModuleResolutionError {
+                            module: mod_name.to_string(),
+                            kind: ModuleResolutionErrorKind::NotFound { file: actual_path },
+                        });
+                    }
                 };
 
             result.push((
@@ -571,7 +583,7 @@ impl<'ast, 'psess, 'c> ModResolver<'ast, 'psess> {
                 ),
             ))
         }
-        result
+        Ok(result)
     }
 }
 
